@@ -290,6 +290,9 @@ func checkC18(c *vlib.Ctx) (string, string) {
 		{Origins: []string{"https://a.example", "https://*.a.example"}, Credentialed: true, Methods: []string{"*"}, RequestHeaders: []string{"*"}, ResponseHeaders: []string{"X-R"}},
 		{Origins: []string{"https://a.example", "https://*.a.example"}, Credentialed: true, PNA: true, Methods: []string{"PUT"}, RequestHeaders: []string{"X-A", "X-B"}},
 		{Origins: []string{"https://a.example"}},
+		// the same kinds with the switches that only validation used to read
+		{Origins: []string{"https://a.example", "https://*.a.example"}, Credentialed: true, Methods: []string{"*"}, RequestHeaders: []string{"*"}, ResponseHeaders: []string{"X-R"}, TolInsecure: true, TolPSL: true},
+		{Origins: []string{"https://a.example", "http://*.a.example"}, Credentialed: true, PNANoCORS: true, Methods: []string{"PUT"}, RequestHeaders: []string{"*", "Authorization"}, TolInsecure: true},
 	}
 	byteLadder := []int{1, 16, 64, 253, 254, 326, 327, 328, 4 << 10, 64 << 10, 1 << 20}
 	countLadder := []int{1, 2, 16, 17, 18, 1000, 100000}
@@ -309,7 +312,7 @@ func checkC18(c *vlib.Ctx) (string, string) {
 		{"origin-labels", countLadder}, {"origin-labels:\u00e9", countLadder}, {"origin-labels:xn--a", countLadder}, {"origin-labels:A", countLadder},
 		{"origin-elements", countLadder}, {"origin-elements:,", countLadder}, {"origin-elements:, ", countLadder}, {"origin-elements:\t", countLadder},
 		{"acrm-lines", countLadder}, {"acrm-lines:put", countLadder}, {"acrm-lines:Put", countLadder}, {"acrm-lines:query", countLadder}, {"origin-lines", countLadder}, {"acrpn-lines", countLadder},
-		{"acrh-lines", countLadder}, {"acrh-lines:X-A", countLadder}, {"acrh-lines:x-zz", countLadder}, {"acrh-lines:empty", countLadder}, {"acrh-lines:x-a,x-b", countLadder},
+		{"acrh-lines", countLadder}, {"acrh-lines:authorization", countLadder}, {"acrh-lines:x-a,authorization", countLadder}, {"acrh-lines:X-A", countLadder}, {"acrh-lines:x-zz", countLadder}, {"acrh-lines:empty", countLadder}, {"acrh-lines:x-a,x-b", countLadder},
 	}
 	maxSeen := 0.0
 	hist := map[string]int{}
